@@ -1106,6 +1106,29 @@ func CheckSignatureFromKey(publicKey interface{}, algo SignatureAlgorithm, signe
 	}
 	digest := hash(hashType, signed)
 
+	// The key must be of the type that the claimed algorithm names.
+	var pubKeyAlgo PublicKeyAlgorithm
+	for _, details := range signatureAlgorithmDetails {
+		if details.algo == algo {
+			pubKeyAlgo = details.pubKeyAlgo
+			break
+		}
+	}
+	var keyAlgo PublicKeyAlgorithm
+	switch publicKey.(type) {
+	case *rsa.PublicKey:
+		keyAlgo = RSA
+	case *dsa.PublicKey:
+		keyAlgo = DSA
+	case *ecdsa.PublicKey, *AugmentedECDSA:
+		keyAlgo = ECDSA
+	case ed25519.PublicKey:
+		keyAlgo = Ed25519
+	}
+	if keyAlgo != UnknownPublicKeyAlgorithm && keyAlgo != pubKeyAlgo {
+		return errors.New("x509: signature algorithm specifies an " + pubKeyAlgo.String() + " public key, but have public key of type " + keyAlgo.String())
+	}
+
 	switch pub := publicKey.(type) {
 	case *rsa.PublicKey:
 		if algo.isRSAPSS() {
